@@ -439,7 +439,7 @@ PROPS = {
         assumptions=COMMON_ASSUMPTIONS + ["hash comparison uses std DefaultHasher with its fixed keys; a 2^-64 collision would be a false alarm"],
         quick=plans(dict(build="dbg", nshards=16), dict(build="miri", nshards=4, timeout=900)),
         thorough=plans(dict(build="dbg", nshards=16), dict(build="rel", nshards=16),
-                       dict(build="asan", nshards=16, scale=0.3), dict(build="miri", nshards=16, scale=1.0, timeout=3000)),
+                       dict(build="asan", nshards=16, scale=0.3), dict(build="miri", nshards=16, scale=0.3, timeout=3000)),
         min_evaluations=500000,
     ),
     "C18": dict(
@@ -475,7 +475,8 @@ PROPS = {
         technique="exhaustive execution of the real conversions with round-trip and table oracles",
         rule="every 16-bit value of TYPE/QTYPE/CLASS/QCLASS/extended RCODE and every 8-bit opcode/RCODE value is "
              "executed (sharded by value mod 16); every case pattern of every mnemonic; three case patterns of the "
-             "TYPEnnn/CLASSnnn prefix per value. distinct = distinct (kind, value) and (kind, mnemonic spelling) pairs",
+             "TYPEnnn/CLASSnnn prefix per value. distinct = distinct (kind, value) and (kind, mnemonic spelling) pairs. The Miri "
+             "build of the thorough tier runs the values below 300, above 65199 and every 61st in between; the native builds run all",
         assumptions=COMMON_ASSUMPTIONS + ["mnemonic table taken from RFC 1035/3596/2782/6891/8945/2136"],
         quick=plans(dict(build="dbg", nshards=16)),
         thorough=plans(dict(build="dbg", nshards=16), dict(build="rel", nshards=16),
